@@ -69,6 +69,29 @@ func runDirect(c *Case, kind string) *Result {
 		}
 		ev = append(ev, "rem="+hx(rd.Msg))
 		r.Ev = ev
+	case "errnil":
+		// C17: a nil error handed to ErrorCode is reported as an internal FATAL error, never as an
+		// empty message
+		var buf bytes.Buffer
+		w := buffer.NewWriter(discardLogger, &buf)
+		if err := wire.ErrorCode(w, nil); err != nil {
+			r.Ev = []string{"err"}
+		}
+		b := buf.Bytes()
+		for len(b) >= 5 {
+			n := int(b[1])<<24 | int(b[2])<<16 | int(b[3])<<8 | int(b[4])
+			if n < 4 || len(b) < 1+n {
+				break
+			}
+			r.Out = append(r.Out, append([]byte(nil), b[:1+n]...))
+			b = b[1+n:]
+		}
+		if len(b) > 0 {
+			r.Out = append(r.Out, append([]byte(nil), b...))
+		}
+		for range r.Out {
+			r.At = append(r.At, 0)
+		}
 	case "heap":
 		r.Ev = runHeap(c)
 	default:
